@@ -418,3 +418,48 @@ func labelsKey(ls map[string]string) string {
 	b.WriteByte('}')
 	return b.String()
 }
+
+// Functions of the instrumented packages that acquire a lock (see
+// sim/cmd/genoverlay instrumentLocks; the current list is written to
+// gen/autosites.json at build time). A name that no longer exists never fires.
+var (
+	// called by ingestion workers, group run loops (flush) and GC goroutines
+	AutoSitesStore = []string{"store.Alerts.SetIfNotOlder", "store.Alerts.Get", "store.Alerts.Set", "store.Alerts.DeleteIfNotModified",
+		"store.Alerts.Destroyed", "store.Alerts.Empty", "store.Alerts.List", "store.Alerts.Len", "store.Alerts.gcAlerts", "store.Alerts.gcLimitBuckets",
+		"mem.Alerts.gcAlerts", "mem.Alerts.gcListeners", "mem.Alerts.Subscribe", "mem.Alerts.SlurpAndSubscribe"}
+	// the subset on the ingestion path (where the oracles already allow for holds of
+	// this size), after a successful notification, and in the GC goroutines; a
+	// suspension before the flush's own reads would shift the flush against its timer
+	AutoSitesIngest = []string{"store.Alerts.SetIfNotOlder", "store.Alerts.Destroyed", "store.Alerts.DeleteIfNotModified", "store.Alerts.gcAlerts", "mem.Alerts.gcAlerts"}
+	// called by the maintenance goroutines and the notification pipeline
+	AutoSitesNflog   = []string{"nflog.Log.GC", "nflog.Log.Snapshot", "nflog.Log.Log", "nflog.Log.Query", "nflog.Log.Merge", "nflog.Log.MarshalBinary"}
+	AutoSitesSilence = []string{"silence.Silences.GC", "silence.Silences.Snapshot", "silence.Silences.MarshalBinary", "silence.Silences.Merge"}
+)
+
+// AutoHolds draws n one-shot suspensions: the goroutine (never the driver) that
+// performs the k-th lock acquisition of the run inside one of the named
+// functions, while holding no instrumented lock, sleeps for a duration between
+// lo and hi right before it.
+func AutoHolds(r *Rng, names []string, n, maxNth int, lo, hi Dur) []Hold {
+	var out []Hold
+	for i := 0; i < n; i++ {
+		k := r.Intn(maxNth)
+		if r.Bool(0.5) {
+			k = r.Intn(1 + maxNth/8) // early acquisitions are the ones every run reaches
+		}
+		out = append(out, Hold{Site: "auto.lock", Match: Pick(r, names), Nth: k, Delay: r.Dur(lo, hi) + 5})
+	}
+	return out
+}
+
+// AutoSlack is the total time the plan's one-shot suspensions can add to a
+// background activity (a maintenance GC, a snapshot).
+func (p *Plan) AutoSlack() Dur {
+	var d Dur
+	for _, h := range p.Holds {
+		if h.Site == "auto.lock" {
+			d += h.Delay
+		}
+	}
+	return d
+}
